@@ -349,7 +349,8 @@ asn1f_check_constr_tags_distinct(arg_t *arg) {
 		 * For SET and CHOICE treat everything as a big set of
 		 * non-mandatory components.
 		 */
-		if(expr->expr_type != ASN_CONSTR_SEQUENCE || v->marker.flags) {
+		if(expr->expr_type != ASN_CONSTR_SEQUENCE
+		|| (v->marker.flags & EM_OMITABLE)) {
 			asn1p_expr_t *nv;
 			for(nv = v; (nv = TQ_NEXT(nv, next));) {
 				DEBUG("S/C comparing tags %s s. %s",
@@ -357,7 +358,7 @@ asn1f_check_constr_tags_distinct(arg_t *arg) {
 				if(_asn1f_compare_tags(arg, v, nv))
 					r_value = -1;
 				if(expr->expr_type == ASN_CONSTR_SEQUENCE
-				&& !nv->marker.flags) break;
+				&& !(nv->marker.flags & EM_OMITABLE)) break;
 			}
 		}
 	}
